@@ -56,6 +56,12 @@ func Harness_C07_unsub_mid_send() {
 		default:
 		}
 		verifAssert(x.ping.Add(0) == 0, "ping_back_to_zero")
+		// no lock is left held: later Sends / Subscribes / Unsubscribes can proceed
+		free := x.sendingMu.TryLock()
+		verifAssert(free, "sending_lock_is_released")
+		if free {
+			x.sendingMu.Unlock()
+		}
 		verifReach("quiescent")
 	})
 }
